@@ -25,7 +25,9 @@ LEVEL = "exploration"
 RULE = ("(a) all sequences of <=2 catalogue instructions (one canonical + one all-ones-registers encoding per valid "
         "opcode, fe/ff with every register byte, nop), every catalogue instruction x every combination of 0-2 payloads "
         "(packed 0..3, sparse 0..2, fill-array width{1,2,4,8} x count{0,1,3}) with alignment nops and referencing 31t "
-        "(thorough: all sequences of <=3 over a reduced catalogue x {no, each single} payload); "
+        "(thorough: all sequences of <=3 over a reduced catalogue x {no, each single} payload); the <=1 x payload streams "
+        "and all <=2 sequences over the reduced catalogue again as code items of generated DEX files through "
+        "EncodedMethod.get_instructions(_idx) (first, second and cached calls), DalvikCode.get_bc, DEX.disassemble; "
         "(b, fault-enumeration half) every 1-unit buffer, every 2-unit buffer over 65536 x 16 units, every single-byte "
         "substitution (12 values) and every byte truncation (declared size kept / adjusted) of a base set of (a). "
         "A case is non-trivial when the buffer is non-empty; distinct by construction within a family (enumeration), "
@@ -33,8 +35,10 @@ RULE = ("(a) all sequences of <=2 catalogue instructions (one canonical + one al
 ASSUMPTIONS = [
     "oracle = gen/dalvik.py (opcode table, decoder, payload layout) typed in from the Dalvik specification",
     "DEX mode only (ClassManager.get_odex_format() is False)",
-    "DEX.disassemble / EncodedMethod.get_instructions_idx are not driven (no DEX-level harness in this check); "
-    "DCode.get_instructions, LinearSweepAlgorithm.get_instructions, off_to_pos and get_ins_off are",
+    "DEX-level view: the <=1-instruction x payload-combination streams and all <=2 sequences over the reduced catalogue "
+    "are wrapped as code items of static methods by gen/dexgen.py (trusted writer, 200 methods per file) and read back "
+    "through EncodedMethod.get_instructions / get_instructions_idx, DalvikCode.get_bc and DEX.disassemble",
+    "DEX.disassemble(offset, size): size is taken as the byte count of the range (it is what read_at() reads)",
     "a buffer is a 'valid stream' when the reference sweep decodes it completely with strictly valid instructions and "
     "complete, 4-byte aligned payloads and the declared size equals the buffer; every other buffer only gets oracle (b)",
     "termination = event budget of mc/budget.py (BUDGET0 + BUDGET1 x bytes), not wall clock",
@@ -49,7 +53,7 @@ MANIFEST = {
             "lengths (payloads: from their own header fields) and exact byte round trip or raise InvalidInstruction, "
             "within a deterministic event budget.",
     "note": "Trusted: gen/dalvik.py.  Streams longer than the bound, multi-byte faults and ODEX mode are not explored; "
-            "DEX.disassemble / get_instructions_idx need a DEX file and are not driven here.",
+            "DEX-level APIs are driven on valid streams only, through DEX files written by gen/dexgen.py.",
 }
 
 BUDGET0, BUDGET1 = 4000, 400
@@ -235,15 +239,16 @@ class BudgetSession:
 
 
 class Env:
-    def __init__(self):
+    def __init__(self, budget=True):
         from androguard.core import dex
         self.dex = dex
         self.cm = StubCM(dex)
         self.Invalid = dex.InvalidInstruction
-        self.budget = BudgetSession(dex)
+        self.budget = BudgetSession(dex) if budget else None
 
     def close(self):
-        self.budget.close()
+        if self.budget:
+            self.budget.close()
 
 
 def _safe(f):
@@ -341,6 +346,133 @@ def judge(env, buf, size):
     except Exception as e:     # noqa
         return outcome, [("valid:dcode:exception", "%s: DCode raised %s: %s" % (hx, type(e).__name__, e))]
     return outcome, v
+
+
+# ----------------------------------------------------------------------------------- valid streams through a DEX file
+DEX_BATCH = 200
+CODE_ITEM_HEADER = 16       # registers, ins, outs, tries (4 x u2), debug_info_off, insns_size (2 x u4)
+
+
+def _view(seq):
+    return [(_safe(i.get_name), _safe(i.get_length), _safe(i.get_raw)) for i in seq]
+
+
+def _cmp(api, got, want, listing, hx):
+    """got / want: [(name, length, raw)]; -> [(key, msg)]"""
+    got = [(a, b, bytes(c) if isinstance(c, (bytes, bytearray)) else c) for a, b, c in got]
+    if got == want:
+        return []
+    k = 0
+    while k < len(got) and k < len(want) and got[k] == want[k]:
+        k += 1
+    feat = listing[k][3] if k < len(listing) else "end"
+    return [("valid:via-dex:%s:%s" % (api, feat), "%s: %s differs from the assembled list at instruction #%d: got %r, assembled %r "
+             "(%d instructions yielded, %d assembled)" % (hx, api, k, got[k] if k < len(got) else None,
+                                                           want[k] if k < len(want) else None, len(got), len(want)))]
+
+
+def judge_dex(env, codes):
+    """codes: list of valid streams (bytes).  Each becomes the code item of a static method of one generated DEX file.
+    -> [(index, key, msg)]"""
+    from gen import dexgen as G
+    dex = env.dex
+    ms = [G.Method("m%03d" % i, "V", (), G.ACC_STATIC | G.ACC_PUBLIC, G.Code(256, 0, 0, c)) for i, c in enumerate(codes)]
+    raw = G.build(G.Dex([G.Class("La/T;", dmethods=ms)]))
+    try:
+        vm = dex.DEX(raw)
+        methods = {m.get_name(): m for m in vm.get_classes()[0].get_methods()}
+    except Exception as e:     # noqa
+        if len(codes) > 1:
+            out = []
+            for i, c in enumerate(codes):
+                out += [(i, k, m) for _, k, m in judge_dex(env, [c])]
+            return out or [(0, "valid:via-dex:parse:batch-only", "DEX of %d methods failed to load (%s: %s) but each method alone loads"
+                            % (len(codes), type(e).__name__, e))]
+        lst, _ = ref_sweep(codes[0])
+        return [(0, "valid:via-dex:parse:%s" % (lst[0][3] if lst else "end"),
+                 "%s: DEX with this code item failed to load: %s: %s" % (codes[0].hex(), type(e).__name__, e))]
+    out = []
+    for i, code in enumerate(codes):
+        hx = code.hex()
+        listing, prob = ref_sweep(code)
+        assert not prob, (hx, prob)
+        want = [(nm, ln, code[o:o + ln]) for o, nm, ln, _ in listing]
+        v = []
+        try:
+            m = methods["m%03d" % i]
+            dc = m.get_code()
+            off = dc.get_off() + CODE_ITEM_HEADER
+            if raw[off:off + len(code)] != code or dc.insns_size != len(code) // 2:
+                out.append((i, "HARNESS", "generated DEX does not hold the code item where expected: %s at %d, insns_size %r"
+                            % (hx, off, dc.insns_size)))
+                continue
+            feat0 = listing[0][3] if listing else "end"
+
+            def call(api, fn):
+                try:
+                    return fn()
+                except Exception as e:     # noqa
+                    v.append(("valid:via-dex:%s:exception:%s" % (api, feat0), "%s: %s raised %s: %s" % (hx, api, type(e).__name__, e)))
+                    return None
+            if i % 2:                       # odd methods: the indexed view is the first (uncached) sweep
+                idx1 = call("get_instructions_idx", lambda: list(m.get_instructions_idx()))
+                first = call("get_instructions", lambda: list(m.get_instructions()))
+            else:
+                first = call("get_instructions", lambda: list(m.get_instructions()))
+                idx1 = call("get_instructions_idx", lambda: list(m.get_instructions_idx()))
+            if first is not None:
+                v += _cmp("get_instructions", _view(first), want, listing, hx)
+            if idx1 is not None:
+                v += _cmp("get_instructions_idx", _view([x[1] for x in idx1]), want, listing, hx)
+                offs = [x[0] for x in idx1]
+                if not v and offs != [o for o, _, _, _ in listing]:
+                    k = [a == b for a, b in zip(offs, [o for o, _, _, _ in listing])].index(False)
+                    v.append(("valid:via-dex:get_instructions_idx:offsets:%s" % listing[k][3],
+                              "%s: get_instructions_idx offsets %r, assembled %r" % (hx, offs, [o for o, _, _, _ in listing])))
+            # disassemble(offset, size): size is the number of bytes read at offset (it is also handed to DCode as the
+            # size in code units, which only over-declares; the sweep then stops at the end of the bytes read)
+            for api, fn in (("get_instructions-second-call", lambda: list(m.get_instructions())),
+                            ("get_bc", lambda: list(dc.get_bc().get_instructions())),
+                            ("disassemble", lambda: list(vm.disassemble(off, len(code))))):
+                r = call(api, fn)
+                if r is not None:
+                    v += _cmp(api, _view(r), want, listing, hx)
+            if not v:
+                total = sum(x.get_length() for x in first)
+                if total != 2 * dc.insns_size:
+                    v.append(("valid:via-dex:insns_size:end", "%s: instructions cover %d bytes, insns_size declares %d units"
+                              % (hx, total, dc.insns_size)))
+        except Exception as e:     # noqa
+            v.append(("valid:via-dex:get_code:exception:%s" % (listing[0][3] if listing else "end"),
+                      "%s: %s: %s" % (hx, type(e).__name__, e)))
+        out += [(i, k, msg) for k, msg in v]
+    return out
+
+
+def dex_streams(family, lo, hi):
+    """The valid streams of the via-dex families by enumeration index."""
+    if family == "pay":         # every sequence of <= 1 catalogue instruction x every combination of 1-2 payloads
+        cat = catalogue()
+        seqs = [[]] + [[c] for c in cat]
+        pcs = payload_combos()
+        for k in range(lo, hi):
+            yield build_stream(seqs[k % len(seqs)], pcs[1 + k // len(seqs)])[0]
+    else:                       # "red2": every sequence of <= 2 instructions over the reduced catalogue
+        red = reduced_catalogue()
+        n = len(red)
+        for k in range(lo, hi):
+            if k == 0:
+                yield b""
+            elif k <= n:
+                yield red[k - 1][1]
+            else:
+                a, b = divmod(k - n - 1, n)
+                yield red[a][1] + red[b][1]
+
+
+def dex_family_sizes():
+    return {"pay": (len(catalogue()) + 1) * (len(payload_combos()) - 1),
+            "red2": 1 + len(reduced_catalogue()) + len(reduced_catalogue()) ** 2}
 
 
 # ----------------------------------------------------------------------------------- catalogue and streams
@@ -481,6 +613,8 @@ def space(ctx):
          "arbitrary_1unit": 65536, "arbitrary_2unit": 65536 * len(UNIT2), "unit2_alphabet": ["%04x" % u for u in UNIT2],
          "substitution_alphabet": ["%02x" % b for b in SUBST], "fault_base_streams": len(fault_bases()),
          "budget_events": "%d + %d x bytes" % (BUDGET0, BUDGET1)}
+    d["via_dex_methods"] = dex_family_sizes()
+    d["via_dex_methods_per_file"] = DEX_BATCH
     if ctx.thorough:
         d["reduced_catalogue"] = len(red)
         d["valid_seq3_reduced_x_payload01"] = len(red) ** 3 * (1 + len(payload_specs()))
@@ -495,6 +629,8 @@ def shards(ctx):
     s += [("u1", lo, lo + 0x4000) for lo in range(0, 0x10000, 0x4000)]
     s += [("u2", lo, lo + 0x400) for lo in range(0, 0x10000, 0x400)]
     s += [("fault", r, NFAULT) for r in range(NFAULT)]
+    for fam, n in sorted(dex_family_sizes().items()):
+        s += [("dex", fam, lo, hi) for lo, hi in _chunks(n, 40 * DEX_BATCH)]
     if ctx.thorough:
         nred = len(reduced_catalogue())
         s += [("seq3", a, b) for a in range(nred) for b in range(0, nred, 8)]
@@ -520,12 +656,43 @@ def _run(acc, env, buf, size, family, listing=None):
             old["witness"], old["msg"] = {"buf": buf.hex(), "size": size}, str(msg)[:2000]
 
 
+def _run_dex(acc, env, codes):
+    acc.count("via_dex_files")
+    res = judge_dex(env, codes)
+    for c in codes:
+        acc.n += 1
+        acc.count("via_dex_methods")
+        if c:
+            acc.nt.add(h8(("dex", c)))
+    acc._oc.add(("via-dex", len(res) > 0))
+    for i, key, msg in res:
+        if key == "HARNESS":
+            acc.harness_error(msg)
+            continue
+        w = {"via_dex": [codes[i].hex()]}
+        if key not in acc.viol and not any(k == key for _, k, _ in judge_dex(env, [codes[i]])):
+            w = {"via_dex": [c.hex() for c in codes]}          # only reproduces inside the batch
+        acc.violation(key, w, msg)
+
+
 def run_shard(ctx, shard):
-    env = Env()
+    env = Env(budget=shard[0] != "dex")
     acc = Acc()
     acc._oc = set()
     kind = shard[0]
-    if kind == "seq2":
+    if kind == "dex":
+        batch = []
+        for code in dex_streams(shard[1], shard[2], shard[3]):
+            batch.append(code)
+            if len(batch) == DEX_BATCH:
+                _run_dex(acc, env, batch)
+                batch = []
+        if batch:
+            _run_dex(acc, env, batch)
+        if shard[2] == 0:
+            acc.sample({"via_dex": "%d static methods per generated DEX; code item of the first: %s"
+                        % (DEX_BATCH, next(dex_streams(shard[1], 0, 1)).hex() or "<empty>")})
+    elif kind == "seq2":
         cat = catalogue()
         if shard[1] == 0:
             _run(acc, env, b"", 0, "valid_streams", [])
@@ -588,6 +755,10 @@ def run_shard(ctx, shard):
 
 
 def replay(ctx, w):
+    if "via_dex" in w:
+        env = Env(budget=False)
+        res = judge_dex(env, [bytes.fromhex(x) for x in w["via_dex"]])
+        return "\n".join("%s: %s" % (k, m) for _, k, m in res) or None
     env = Env()
     _, viols = judge(env, bytes.fromhex(w["buf"]), w["size"])
     env.close()
@@ -603,6 +774,8 @@ def finalize(ctx, acc):
         acc.harness_error("valid streams explored %d != %d" % (acc.extra.get("valid_streams", 0), want_valid))
     if acc.extra.get("arbitrary_1unit", 0) != 65536 or acc.extra.get("arbitrary_2unit", 0) != 65536 * len(UNIT2):
         acc.harness_error("arbitrary buffers explored %r" % acc.extra)
+    if acc.extra.get("via_dex_methods", 0) != sum(dex_family_sizes().values()):
+        acc.harness_error("via-dex methods explored %d != %d" % (acc.extra.get("via_dex_methods", 0), sum(dex_family_sizes().values())))
     if not acc.extra.get("fault_substitutions") or not acc.extra.get("fault_truncations"):
         acc.harness_error("fault half empty")
     # the budget mechanism itself must be live: a loop that never ends has to be cut
